@@ -40,7 +40,7 @@ Definition args_good (ob : opts) : Prop :=
 Definition roundtrip_ok (w : world) (ob : opts) : Prop :=
   (* every line is in the classes the reader reproduces: section names, keys, values, lengths *)
   forallb iline_ok (save_doc fmt16 w ob) = true /\
-  (* no two entries share a (case-insensitive) key and no section is named like an entry *)
+  (* no two entries share a (case-insensitive) key; a section MAY be named like an entry (cfc9e38) *)
   keys_good (save_assigns fmt16 w ob) /\
   Forall (fun it => file_type (it_type it) = false ->
             (it_name it = None -> it_char it <> 0) /\ value_good strtod fmt16 w it /\
